@@ -37,7 +37,9 @@ BOUNDS = {
     "thorough": "as quick plus <= 4 blocks / <= 16 voxels per configuration, one 18..27-voxel block (width 8) with the "
                 "number of distinct labels forced >= 17, and more shapes",
 }
-OUTSIDE = ["bit widths 16 and 32 (blocks with > 256 distinct labels)", "chunks with more than 4 blocks"]
+OUTSIDE = ["bit width 32 (blocks with > 65536 distinct labels)", "bit width 16 with more than 3 symbolic labels per block "
+           "(the other labels of those 280-480-voxel blocks are fixed, pairwise distinct values; the symbolic labels range over a window "
+           "holding 4 of the fixed labels: equal to one of them or in one of the 5 gaps)", "chunks with more than 4 blocks"]
 
 
 def _cfg(dtype, C, shape, block, **kw):
@@ -84,6 +86,18 @@ def configs(tier, seed):
             out.append(_cfg(*b, cost=8, wall=2400, max_paths=20000))
         out.append(_cfg("uint64", 1, (2, 3, 3), (3, 3, 2), min_distinct=17, cost=10, wall=2400))
         out.append(_cfg("uint32", 1, (3, 3, 3), (3, 3, 3), min_distinct=26, cost=10, wall=2400))
+    # bit width 16: a 343-voxel block with 340 fixed distinct labels and 3 symbolic ones
+    out.append(_cfg("uint32", 1, (7, 7, 7), (7, 7, 7), concrete=341 if tier == "quick" else 340, cost=10, wall=2400, max_paths=2000))
+    out.append(_cfg("uint64", 1, (5, 8, 7), (7, 8, 5), concrete=279, cost=6, wall=2400, max_paths=2000))     # 280 voxels, non-cubic block
+    # width boundaries: 255 / 256 fixed distinct labels plus two symbolic ones -> 255..258 table entries (8 <-> 16 bits);
+    # 15 / 16 fixed ones in a 27-voxel block -> 4 <-> 8 bits
+    out.append(_cfg("uint32", 1, (6, 7, 7), (7, 7, 6), concrete=292, distinct=256, cost=6, wall=2400, max_paths=2000))
+    out.append(_cfg("uint64", 1, (6, 7, 7), (7, 7, 6), concrete=292, distinct=255, cost=6, wall=2400, max_paths=2000))
+    out.append(_cfg("uint32", 1, (3, 3, 3), (3, 3, 3), concrete=25, distinct=16, cost=3, wall=2400, max_paths=2000))
+    out.append(_cfg("uint64", 1, (3, 3, 3), (3, 3, 3), concrete=25, distinct=15, cost=3, wall=2400, max_paths=2000))
+    if tier == "thorough":
+        # two 8x8x5 blocks in one chunk (second one padded): widths 16 and 8 side by side
+        out.append(_cfg("uint32", 1, (5, 8, 12), (8, 8, 5), concrete=478, cost=10, wall=2400, max_paths=2000))
     return out
 
 
@@ -94,12 +108,41 @@ def _patched():
     return ce, cs
 
 
+def _prove_all(ctx, eqs, label):
+    """one obligation for small chunks, one per voxel for large ones (a conjunction of hundreds of table look-ups is
+    much harder for the solver than the look-ups one by one)"""
+    if len(eqs) <= 64:
+        ctx.prove(z3.And(eqs), label)
+    else:
+        for e in eqs:
+            ctx.prove(e, label)
+
+
 def H_roundtrip(ctx, cfg):
     ce, cs = _patched()
     dtype, C = cfg["dtype"], cfg["C"]
     Z, Y, X = cfg["shape"]
     block = cfg["block"]
     chunk = SArray.fresh((C, Z, Y, X), dtype, "v")
+    if cfg.get("concrete"):
+        # all but a few voxels carry fixed pairwise distinct labels (forces the wide bit widths); the others stay symbolic
+        from ..values import SBV
+        flat = chunk.a.reshape(-1)
+        n = len(flat)
+        step = n // (n - cfg["concrete"] + 1)
+        sym_pos = {step * (j + 1) - 1 for j in range(n - cfg["concrete"])}
+        top = 2 ** (8 * real_np.dtype(dtype).itemsize)
+        nd = cfg.get("distinct", n)         # number of distinct fixed labels (they repeat cyclically beyond that)
+        fpos = [j for j in range(n) if j not in sym_pos]
+        fixed = {j: ((i % nd) * 2654435761 + ((i % nd) << 40)) % top for i, j in enumerate(fpos)}
+        for j, v in fixed.items():
+            flat[j] = SBV.const(v, dtype)
+        # the symbolic labels range over a window holding 4 of the fixed labels: equal to one of them or in one of the
+        # 5 gaps (the table layout is decided per case, the label stays symbolic)
+        srt = sorted(set(fixed.values()))
+        mid = len(srt) // 2
+        for j in sym_pos:
+            ctx.assume(z3.And(z3.UGT(flat[j].e, srt[mid - 3]), z3.ULT(flat[j].e, srt[mid + 2])))
     ctx.input("chunk", [x.e for x in chunk.a.ravel()])
     if cfg.get("min_distinct"):
         vals = [x.e for x in chunk.a.ravel()]
@@ -122,11 +165,11 @@ def H_roundtrip(ctx, cfg):
         ctx.prove(z3.And(conds), "table-indices-inside-table")
     eqs = [dec[c][z][y][x] == chunk.a[c, z, y, x].e
            for c in range(C) for z in range(Z) for y in range(Y) for x in range(X)]
-    ctx.prove(z3.And(eqs), "spec-decoder-recovers-labels")
+    _prove_all(ctx, eqs, "spec-decoder-recovers-labels")
     own = enc.decode(SBytes(buf), (X, Y, Z))
     ctx.prove(own.shape == (C, Z, Y, X) and own.dtype == real_np.dtype(dtype), "own-decoder-shape-dtype")
     eqs = [own.a[idx].e == chunk.a[idx].e for idx in real_np.ndindex(C, Z, Y, X)]
-    ctx.prove(z3.And(eqs), "own-decoder-recovers-labels")
+    _prove_all(ctx, eqs, "own-decoder-recovers-labels")
 
 
 # --------------------------------------------------------------------- replay
